@@ -125,6 +125,7 @@ func CSVConsumer(opts ...CSVOpt) Consumer {
 					return err
 				}
 
+				v.SetLen(0) // the destination is overwritten: a longer pre-populated slice must not make SetCap panic
 				v.Grow(len(csvWriter.records))
 				v.SetCap(len(csvWriter.records)) // in case Grow was unnessary, trim down the capacity
 				v.SetLen(len(csvWriter.records))
